@@ -13,6 +13,9 @@ type Config struct {
 	Faults      int // max non-default environment answers (-1 = unbounded)
 	StepCap     int // per-execution scheduler steps
 	MaxExec     int // cap on executions (0 = none); hitting it makes the result non-exhaustive
+	// ShardI/ShardN split the search over processes: the subtrees below the root execution are
+	// dealt round-robin; shard 0 also owns the root execution itself. ShardN == 0 means no sharding.
+	ShardI, ShardN int
 }
 
 type Stats struct {
@@ -68,29 +71,51 @@ func RunOne(sc Scenario, prefix []int, stepCap int, trace bool) (*sched.Exec, st
 func Explore(sc Scenario, cfg Config, all bool) (Stats, []Violation, error) {
 	var st Stats
 	var viols []Violation
-	stack := [][]int{nil}
+	type node struct {
+		prefix []int
+		ndev   int // deviations from the default schedule so far
+	}
+	const splitDepth = 2
+	stack := []node{{nil, 0}}
+	assign := 0
 	for len(stack) > 0 {
-		prefix := stack[len(stack)-1]
+		nd := stack[len(stack)-1]
 		stack = stack[:len(stack)-1]
+		prefix := nd.prefix
 		if cfg.MaxExec > 0 && st.Executions >= cfg.MaxExec {
 			st.Capped = true
 			break
+		}
+		// sharding: nodes above the split depth are run by every shard (to find the subtrees) but
+		// counted and judged by shard 0 only; subtrees rooted at the split depth are dealt round-robin
+		shared := cfg.ShardN > 1 && nd.ndev < splitDepth
+		mine := true
+		if cfg.ShardN > 1 && nd.ndev == splitDepth {
+			mine = assign%cfg.ShardN == cfg.ShardI
+			assign++
+			if !mine {
+				continue
+			}
 		}
 		x, verdict := RunOne(sc, prefix, cfg.StepCap, false)
 		if x.Diverged != "" {
 			return st, viols, fmt.Errorf("nondeterminism: %s (prefix %v)", x.Diverged, prefix)
 		}
-		st.Executions++
-		st.Steps += x.Steps
-		st.Points += len(x.Points)
-		if len(x.Points) > st.MaxDepth {
-			st.MaxDepth = len(x.Points)
-		}
-		if x.Deadlock {
-			st.Deadlocks++
-		}
-		if x.HitStepCap {
-			st.StepCapHits++
+		if shared && cfg.ShardI != 0 {
+			verdict = ""
+		} else {
+			st.Executions++
+			st.Steps += x.Steps
+			st.Points += len(x.Points)
+			if len(x.Points) > st.MaxDepth {
+				st.MaxDepth = len(x.Points)
+			}
+			if x.Deadlock {
+				st.Deadlocks++
+			}
+			if x.HitStepCap {
+				st.StepCapHits++
+			}
 		}
 		if verdict != "" {
 			// confirm determinism of the failure before believing it
@@ -118,7 +143,7 @@ func Explore(sc Scenario, cfg Config, all bool) (Stats, []Violation, error) {
 				child := make([]int, i+1)
 				copy(child, x.Choices[:i])
 				child[i] = alt
-				stack = append(stack, child)
+				stack = append(stack, node{child, nd.ndev + 1})
 			}
 			// choice 0 was taken at i: cost 0, bounds unchanged
 		}
